@@ -13,6 +13,7 @@ import ast
 import os
 import sys
 
+OUTPUT = 'TlvVarGen.v'
 SRC = os.path.join(os.environ.get('VERIF_REPO_SRC', '/repo/src'), 'ndn/encoding/tlv_var.py')
 
 TRANSLATE = ['get_tl_num_size', 'write_tl_num', 'pack_uint_bytes', 'parse_tl_num',
